@@ -76,6 +76,13 @@ let run_op (op : string) (args : Sx.t list) : opres =
     let res = ax_op (getitem_model its) (getitem_spec its) l in
     let first o = (match o with OVal (VList [v]) -> OVal v | OVal _ -> OBad "getitem-shape" | o -> o) in
     { res with model = first res.model; spec = first res.spec }
+  | "setfield", [A k; l; w] ->
+    let key = name_of_string k in
+    let wc = content_of_sx w in
+    let r = ax_op (fun c -> setfield_model key c wc)
+        (fun t vs -> match to_list wc with Ok ws -> setfield_spec key t vs ws | Err e -> Err e) l in
+    { r with inputs_valid = r.inputs_valid && valid_b wc;
+             unsupported = (if has_union (type_of wc) then "union" else r.unsupported) }
   | "localindex", [a; l] -> ax_op (localindex_model (z a)) (localindex_spec (z a)) l
   | "rpad", [tg; a; l] -> ax_op (rpad_model (z tg) (z a)) (rpad_spec (z tg) (z a)) l
   | "rpadclip", [tg; a; l] -> ax_op (rpadclip_model (z tg) (z a)) (rpadclip_spec (z tg) (z a)) l
@@ -144,6 +151,9 @@ let () =
         let id = ref "?" in
         (try
            match Sx.parse line with
+           | L [A i; A "val"; d] ->
+             (* canonical value of a dumped result (used to compare implementation results with each other) *)
+             Printf.printf "(%s value %s)\n" i (string_of_obs (obs_of_dump d))
            | L (A i :: A op :: rest) ->
              id := i;
              let args, impl = split_last rest in
